@@ -1,5 +1,6 @@
-(* C14: concrete workspaces, evaluated inside Coq. One witness per finding class of the unchanged tree, and a
-   non-vacuity example for the completeness theorem. *)
+(* C14: concrete workspaces, evaluated inside Coq. One witness per open finding class, one regression pin per
+   class repaired in /repo (C14-glob, C14-glob-order, C14-glob-const: the former witnesses, which must now come
+   out right), and non-vacuity examples for both halves of the domain of the completeness theorem. *)
 From Coq Require Import List Bool String.
 From TS Require Import Model.Str Model.Outcome Model.Unicode Model.Syntax Model.Attrs Model.Types Model.Parse
                        Model.Reconcile Model.Collect Model.Lang.Common Model.Rename Model.MultiFile.
@@ -69,6 +70,7 @@ Qed.
 Definition ws_plain : list ws_entry := [w_a; w_b [w_use (lit "a") (lit "A1")] (lit "A1")].
 Definition ws_renamed : list ws_entry := [w_a; w_b [w_use (lit "a") (lit "A2")] (lit "A2")].
 Definition ws_glob : list ws_entry := [w_a; w_b [w_glob (lit "a")] (lit "A1")].
+Definition ws_glob_renamed : list ws_entry := [w_a; w_b [w_glob (lit "a")] (lit "A2")].
 Definition ws_glob_explicit : list ws_entry := [w_a; w_b [w_glob (lit "a"); w_use (lit "a") (lit "A1")] (lit "A1")].
 Definition ws_same_name : list ws_entry := [w_s (lit "a"); w_s (lit "c"); w_b [w_use (lit "zz") (lit "S")] (lit "S")].
 Definition MY : str := lit "my_crate".
@@ -79,13 +81,20 @@ Proof. vm_compute. reflexivity. Qed.
 (* `use a::A2;` where A2 is #[serde(rename = "A2Renamed")]: nothing is imported *)
 Lemma renamed_eval : w_run idl idl ws_renamed MY = Some ([], [(lit "A2", lit "a", false, Some "C14-renamed-import", false)]).
 Proof. vm_compute. reflexivity. Qed.
-(* `use a::*;`: nothing is imported *)
-Lemma glob_eval : w_run idl idl ws_glob MY = Some ([], [(lit "A1", lit "a", false, Some "C14-glob", false)]).
+(* `use a::*;` (formerly C14-glob: nothing was imported): every type of crate a is imported, the reference to A1
+   is in the domain (covered by the glob), in no finding class, imported *)
+Definition A_ALL : list (str * str) := [(lit "a", lit "A1"); (lit "a", lit "A2Renamed"); (lit "a", lit "A3")].
+Lemma glob_eval : w_run idl idl ws_glob MY = Some (A_ALL, [(lit "A1", lit "a", true, None, true)]).
 Proof. vm_compute. reflexivity. Qed.
-(* `use a::*; use a::A1;`: the import list depends on the iteration order of the per-crate import set *)
+(* `use a::*;` and a reference to the serde-renamed A2: imported under its generated name (a glob needs no
+   condition on the target) *)
+Lemma glob_renamed_eval : w_run idl idl ws_glob_renamed MY = Some (A_ALL, [(lit "A2", lit "a", true, None, true)]).
+Proof. vm_compute. reflexivity. Qed.
+(* `use a::*; use a::A1;` (formerly C14-glob-order: the list depended on which of the two imports the per-crate
+   HashSet yielded first): the same list under both iteration orders *)
 Lemma glob_order_eval :
-  w_run idl idl ws_glob_explicit MY = Some ([(lit "a", lit "A1"); (lit "a", lit "A2Renamed"); (lit "a", lit "A3")], [(lit "A1", lit "a", true, None, true)]) /\
-  w_run (@rev _) idl ws_glob_explicit MY = Some ([(lit "a", lit "A1")], [(lit "A1", lit "a", true, None, true)]).
+  w_run idl idl ws_glob_explicit MY = Some (A_ALL, [(lit "A1", lit "a", true, None, true)]) /\
+  w_run (@rev _) idl ws_glob_explicit MY = Some (A_ALL, [(lit "A1", lit "a", true, None, true)]).
 Proof. split; vm_compute; reflexivity. Qed.
 (* S defined in crates a and c, `use zz::S;`: the module imported from depends on the iteration order of CrateTypes *)
 Lemma same_name_eval :
@@ -112,12 +121,21 @@ Theorem renamed_import_refuted : exists arrivals pd v,
   rv_known v = Some "C14-renamed-import" /\ rv_imported v = false.
 Proof. from_eval renamed_eval. Qed.
 
-Theorem glob_refuted : exists arrivals pd v,
+Theorem glob_fixed : exists arrivals pd v,
   parse_workspace uc_exec [] [] (fun l => l) ws_glob = Ok arrivals /\
   In (MY, pd) (multi_crates idl arrivals) /\
   In v (judge_crate (c14_infos uc_exec [] ws_glob) [] MY (scoped_pairs (crate_imports idl (multi_crates idl arrivals) MY pd))) /\
-  rv_known v = Some "C14-glob" /\ rv_imported v = false.
+  rv_dom v = true /\ rv_known v = None /\ rv_imported v = true.
 Proof. from_eval glob_eval. Qed.
+
+Theorem glob_renamed_imported :
+  renamed_in (c14_infos uc_exec [] ws_glob_renamed) (lit "a") (lit "A2") = lit "A2Renamed" /\
+  exists arrivals pd v,
+  parse_workspace uc_exec [] [] (fun l => l) ws_glob_renamed = Ok arrivals /\
+  In (MY, pd) (multi_crates idl arrivals) /\
+  In v (judge_crate (c14_infos uc_exec [] ws_glob_renamed) [] MY (scoped_pairs (crate_imports idl (multi_crates idl arrivals) MY pd))) /\
+  rv_name v = lit "A2" /\ rv_from v = lit "a" /\ rv_dom v = true /\ rv_known v = None /\ rv_imported v = true.
+Proof. split; [vm_compute; reflexivity|]. from_eval glob_renamed_eval. Qed.
 
 Theorem same_name_refuted : exists arrivals pd v,
   parse_workspace uc_exec [] [] (fun l => l) ws_same_name = Ok arrivals /\
@@ -127,17 +145,31 @@ Theorem same_name_refuted : exists arrivals pd v,
 Proof. from_eval (proj2 same_name_eval). Qed.
 
 (* k/src/lib.rs: #[typeshare] struct K1 { x: u8 }  #[typeshare] pub const MyConst: u32 = 1;
-   my-crate/src/lib.rs: use k::*; use k::K1;  -  the effective glob imports the const under its generated name,
-   while TypeScript defines it as MY_CONST *)
+   my-crate/src/lib.rs: use k::*; use k::K1;  -  formerly C14-glob-const: the glob imported the const under its
+   generated name, while TypeScript defines it as MY_CONST.  Now a const is not in the type table: under both
+   iteration orders exactly K1 is imported, and the specification calls the old list unsound. *)
 Definition w_k : ws_entry := w_entry (lit "k") (w_file
   [w_struct [] (lit "K1") [w_fld (lit "x") (w_ty (lit "u8"))];
    IConst [w_ts] (lit "MyConst") (w_ty (lit "u32")) (CELit (CInt (Some (Zpos xH))))]
   [[lit "typeshare"]; [lit "u8"]; [lit "u32"]]).
 Definition ws_glob_const : list ws_entry := [w_k; w_b [w_glob (lit "k"); w_use (lit "k") (lit "K1")] (lit "K1")].
 
-Lemma glob_const_refuted :
-  exists verdicts,
-    w_run idl idl ws_glob_const MY = Some ([(lit "k", lit "K1"); (lit "k", lit "MyConst")], verdicts) /\
-    const_imports (c14_infos uc_exec [] ws_glob_const) [(lit "k", lit "K1"); (lit "k", lit "MyConst")] = [(lit "k", lit "MyConst")] /\
-    str_to_uppercase uc_exec (to_snake_case uc_exec (lit "MyConst")) = lit "MY_CONST".
-Proof. eexists. split; [vm_compute; reflexivity|]. split; vm_compute; reflexivity. Qed.
+Lemma glob_const_fixed :
+  w_run idl idl ws_glob_const MY = Some ([(lit "k", lit "K1")], [(lit "K1", lit "k", true, None, true)]) /\
+  w_run (@rev _) idl ws_glob_const MY = Some ([(lit "k", lit "K1")], [(lit "K1", lit "k", true, None, true)]) /\
+  unsound_imports (c14_infos uc_exec [] ws_glob_const) MY [(lit "k", lit "K1"); (lit "k", lit "MyConst")] = [(lit "k", lit "MyConst")] /\
+  const_imports (c14_infos uc_exec [] ws_glob_const) [(lit "k", lit "K1"); (lit "k", lit "MyConst")] = [(lit "k", lit "MyConst")].
+Proof. repeat split; vm_compute; reflexivity. Qed.
+
+(* a crate with nothing but consts has an EMPTY type table: `use k0::*;` creates the entry and extends it by
+   nothing - the import list has no pair (TypeScript prints the statement `import {  } from "./k0";`) *)
+Definition w_k0 : ws_entry := w_entry (lit "k0") (w_file
+  [IConst [w_ts] (lit "MyConst") (w_ty (lit "u32")) (CELit (CInt (Some (Zpos xH))))] [[lit "typeshare"]; [lit "u32"]]).
+Definition ws_glob_only_consts : list ws_entry := [w_k0; w_b [w_glob (lit "k0")] (lit "u8")].
+Lemma glob_only_consts_eval :
+  match parse_workspace uc_exec [] [] (fun l => l) ws_glob_only_consts with
+  | Ok arrivals => let cs := multi_crates idl arrivals in
+                   option_map (crate_imports idl cs MY) (crates_get cs MY)
+  | _ => None
+  end = Some [(lit "k0", [])].
+Proof. vm_compute. reflexivity. Qed.
